@@ -23,7 +23,7 @@ Definition allowed : list string :=
    "AddAssign"; "BitAndAssign"; "BitOrAssign"; "BitXorAssign"; "DivAssign"; "MulAssign"; "RemAssign"; "ShlAssign";
    "ShrAssign"; "SubAssign"; "add"; "bitand"; "bitor"; "bitxor"; "div"; "mul"; "rem"; "shl"; "shr"; "sub"; "neg"; "not";
    "_"; "add_assign"; "bitand_assign"; "bitor_assign"; "bitxor_assign"; "div_assign"; "mul_assign"; "rem_assign"; "shl_assign";
-   "shr_assign"; "sub_assign"; "impl"].
+   "shr_assign"; "sub_assign"; "dyn"].
 
 (** the closed vocabulary: everything that is not an identifier or a lifetime, and the identifiers /
     lifetimes that are keywords, absolute-path vocabulary or reserved *)
@@ -269,8 +269,8 @@ Section Closed.
     - destruct (Forall_In _ _ _ H H0) as [_ Hv]. exact Hv.
   Qed.
 
-  Lemma Ok_place_of sk base m :
-    TOk (r_member m) -> TOk (place_of sk base m).
+  Lemma Ok_place_of sk base f :
+    TOk (r_member (fl_member f)) -> TOk (place_of sk base f).
   Proof.
     intros Hm. unfold place_of. destruct sk; oks.
     - apply Ok_self_dot; [|exact Hm]. destruct (String.eqb base "self") eqn:E.
@@ -288,8 +288,8 @@ Section Closed.
   Lemma Ok_cmp_expr op sk c : cmp_ok c -> TOk (r_cmp_expr op sk c).
   Proof.
     intros [(Ht & Hm & _) He]. unfold r_cmp_expr. cbv zeta.
-    pose proof (Ok_place_of sk "self" (fl_member (cf_fld c)) Hm) as Hthis.
-    pose proof (Ok_place_of sk "other" (fl_member (cf_fld c)) Hm) as Hother.
+    pose proof (Ok_place_of sk "self" (cf_fld c) Hm) as Hthis.
+    pose proof (Ok_place_of sk "other" (cf_fld c) Hm) as Hother.
     destruct op.
     - (* Ord *)
       destruct (cf_expr c) as [t|k|o b]; cbn in He; destruct (cf_reverse c); oks; now apply Ok_apply_template.
@@ -343,7 +343,7 @@ Section Closed.
   Lemma Ok_eq_check sk x : qchk_ok x -> TOk (r_eq_check sk x).
   Proof.
     intros [(Ht & Hm & _) Hk]. unfold r_eq_check. cbv zeta.
-    pose proof (Ok_place_of sk "this" (fl_member (fst x)) Hm) as Hthis.
+    pose proof (Ok_place_of sk "this" (fst x) Hm) as Hthis.
     destruct (snd x); oks. now apply Ok_apply_template.
   Qed.
 
